@@ -401,3 +401,43 @@ CHECKS["C13"] = dict(
     bounds=dict(quick="fixpoint (values {1,2}, errors {None,1,200})", thorough="same on both builds"),
     floor=dict(transitions=dict(quick=10000, thorough=10000)),
 )
+
+# ----------------------------------------------------------------------------------------------- C15
+C15_SRC = ["checks/c15_handles.cpp", "harness/support.cpp"]
+c15 = B("c15", C15_SRC, "gcc", ldflags=WRAP)
+c15_tab = B("c15_tab", C15_SRC, "gcc", defs=["C15_TABLES"], ldflags=WRAP)
+c15_asan = B("c15_asan", C15_SRC, "asan", ldflags=WRAP)
+c15_tab_asan = B("c15_tab_asan", C15_SRC, "asan", defs=["C15_TABLES"], ldflags=WRAP)
+
+
+def jobs_c15(tier):
+    js = [job(c15, "--tier", tier), job(c15_tab, "--tier", tier)]
+    if tier == "thorough":
+        js += [job(c15_asan, "--tier", tier), job(c15_tab_asan, "--tier", tier)]
+    return js
+
+
+CHECKS["C15"] = dict(
+    engine="lifetime-lab", level="model_checking", jobs=jobs_c15, build_failure_is_violation=True,
+    level_text="transport: for 20 handle-bearing types (handles as members, vector/array elements, Optional, Variant "
+               "alternative, map value, Result value, table entries incl. nested tables and deleted neighbours) and every "
+               "value of their domains (empty and valid handles), the value is written through a scripted probe writer once "
+               "per (handle position x 14 boundary references from -2^63 to 2^63-1, also for empty handles): PushHandle "
+               "must be called once per handle in encounter order, the bytes must equal the reference codec with exactly "
+               "the returned references, GetSize must not under-estimate; reading back must call GetHandle once per handle "
+               "with the encoded reference and yield the resolved handles (identity and offset resolution), a resolution "
+               "error of four kinds at every handle position must come back unchanged and stop the read, a changed type tag "
+               "must yield UnexpectedHandleType without resolving. ownership: explicit-state search over three "
+               "UniqueHandle<CountingPolicy> slots (adopt, move-assign, move-construct incl. self, release, close, "
+               "destroy) against an owner-map model: every resource is closed exactly once when its owner goes away, never "
+               "when released or moved away, never twice",
+    level_note="a handle-in-table type that does not compile is reported as a violation (documented shape not "
+               "instantiable), through the driver's build-failure path; ownership search is keyed on (slots owning, last "
+               "operation) and bounded to depth 5 (quick) / 6",
+    technique="explicit-state model checking (ownership) + bounded exhaustive enumeration against a reference codec (transport)",
+    rule="states = distinct (ownership pattern, last operation) keys; transitions = ownership operations executed; transport "
+         "cases (type, value, reference script) are counted as evaluations, non-trivial when the value holds a handle",
+    assumptions=R_ASSUME,
+    bounds=dict(quick="13 + 7 types; <= 120 values per type; depth 5", thorough="<= 400 values per type; depth 6; ASan build"),
+    floor=dict(transitions=dict(quick=3000, thorough=10000), evaluations=dict(quick=20000, thorough=40000)),
+)
